@@ -4,6 +4,12 @@
 #include "families.hpp"
 #include <theta_sketch.hpp>
 #include <theta_union.hpp>
+#include <theta_intersection.hpp>
+#include <theta_a_not_b.hpp>
+#include <tuple_intersection.hpp>
+#include <tuple_a_not_b.hpp>
+#include <array_tuple_intersection.hpp>
+#include <array_tuple_a_not_b.hpp>
 #include <tuple_sketch.hpp>
 #include <array_tuple_sketch.hpp>
 #include <hll.hpp>
@@ -88,6 +94,16 @@ inline void theta_states(bool quick, const StateCb& cb, bool compressed) {
     ThetaObj o(u.get_result(n % 2 == 0), compressed);
     cb("union/lgk" + str(lgk) + "/n" + str(n), o);
   }
+  // intersection / A-not-B results: not empty yet nothing retained (exact and estimating), a state updates alone never produce
+  for (int na = 3; na <= 300; na += 99) for (int ord = 0; ord < 2; ++ord) {
+    UTheta a = UTheta::builder(A64(1)).set_lg_k(5).build(), b = UTheta::builder(A64(1)).set_lg_k(5).build();
+    for (int i = 0; i < na; ++i) { a.update((uint64_t)i); b.update((uint64_t)(i + 100000)); }
+    theta_intersection_alloc<A64> x(DEFAULT_SEED, A64(1)); x.update(a); x.update(b);
+    { ThetaObj o(x.get_result(ord == 1), compressed); cb("inter-disjoint/n" + str(na) + (ord ? "/ordered" : "/unordered"), o); }
+    theta_a_not_b_alloc<A64> d(DEFAULT_SEED, A64(1));
+    { ThetaObj o(d.compute(a, a, ord == 1), compressed); cb("anotb-self/n" + str(na) + (ord ? "/ordered" : "/unordered"), o); }
+    { ThetaObj o(d.compute(a, b, ord == 1), compressed); cb("anotb-disjoint/n" + str(na) + (ord ? "/ordered" : "/unordered"), o); }
+  }
 }
 inline void register_theta_families() {
   for (int c = 0; c < 2; ++c) {
@@ -141,6 +157,23 @@ template<class S> void register_tuple_family() {
         cb("lgk" + str(lgk) + "/p" + str(ps[pi]) + "/n" + str(n) + (ord ? "/ordered" : "/unordered"), o);
       }
     }
+    // not empty yet nothing retained: every update rejected by a low sampling probability; intersection of disjoint inputs; A-not-B
+    for (int n = 1; n <= 5; ++n) for (int ord = 0; ord < 2; ++ord) {
+      UT u = typename UT::builder(TuplePolicy<S>(), AS(1)).set_lg_k(5).set_p(0.01f).build();
+      for (int i = 0; i < n; ++i) u.update((uint64_t)i * 31 + 5, SumGen<S>::make(i));
+      TupleObj<S> o(u.compact(ord == 1));
+      cb("lgk5/p0.01/n" + str(n) + (ord ? "/ordered" : "/unordered"), o);
+    }
+    for (int na = 3; na <= 300; na += 99) for (int ord = 0; ord < 2; ++ord) {
+      UT a = typename UT::builder(TuplePolicy<S>(), AS(1)).set_lg_k(5).build(), b = typename UT::builder(TuplePolicy<S>(), AS(1)).set_lg_k(5).build();
+      for (int i = 0; i < na; ++i) { a.update((uint64_t)i, SumGen<S>::make(i)); b.update((uint64_t)(i + 100000), SumGen<S>::make(i)); }
+      struct IPol { void operator()(S& x, const S& y) const { x += y; } };
+      tuple_intersection<S, IPol, AS> x(DEFAULT_SEED, IPol(), AS(1)); x.update(a); x.update(b);
+      { TupleObj<S> o(x.get_result(ord == 1)); cb("inter-disjoint/n" + str(na) + (ord ? "/ordered" : "/unordered"), o); }
+      tuple_a_not_b<S, AS> d(DEFAULT_SEED, AS(1));
+      { TupleObj<S> o(d.compute(a, a, ord == 1)); cb("anotb-self/n" + str(na) + (ord ? "/ordered" : "/unordered"), o); }
+      { TupleObj<S> o(d.compute(a, b, ord == 1)); cb("anotb-disjoint/n" + str(na) + (ord ? "/ordered" : "/unordered"), o); }
+    }
   };
   f.from_bytes = [](const void* p, size_t n) { return ObjP(new TupleObj<S>(CT::deserialize(p, n, DEFAULT_SEED, serde<S>(), AS(1)))); };
   f.from_stream = [](std::istream& is) { return ObjP(new TupleObj<S>(CT::deserialize(is, DEFAULT_SEED, serde<S>(), AS(1)))); };
@@ -178,6 +211,26 @@ inline void register_aod_family() {
         AodObj o(u.compact(ord == 1));
         cb("nv" + str(nv) + "/lgk" + str(lgk) + "/n" + str(n) + (ord ? "/ordered" : "/unordered"), o);
       }
+    }
+    // sampling probability below 1 (estimation mode from the first update; with p = 0.01 not empty yet nothing retained);
+    // results of set operations that retain nothing
+    for (int nv = 1; nv <= 2; ++nv) for (int pi = 0; pi < 2; ++pi) for (int n = 1; n <= (pi ? 5 : 12); ++n) for (int ord = 0; ord < 2; ++ord) {
+      const float p = pi ? 0.01f : 0.5f;
+      UA u = UA::builder(Pol((uint8_t)nv, AD(1)), AD(1)).set_lg_k(5).set_p(p).build();
+      Arr v((uint8_t)nv, 0.0, AD(1));
+      for (int i = 0; i < n; ++i) { for (int j = 0; j < nv; ++j) v[j] = i + 0.5 * j; u.update((uint64_t)i * 17 + 1, v); }
+      AodObj o(u.compact(ord == 1));
+      cb("nv" + str(nv) + "/lgk5/p" + str(p) + "/n" + str(n) + (ord ? "/ordered" : "/unordered"), o);
+    }
+    for (int na = 3; na <= 300; na += 99) for (int ord = 0; ord < 2; ++ord) {
+      UA a = UA::builder(Pol(2, AD(1)), AD(1)).set_lg_k(5).build(), b = UA::builder(Pol(2, AD(1)), AD(1)).set_lg_k(5).build();
+      Arr v(2, 0.0, AD(1));
+      for (int i = 0; i < na; ++i) { v[0] = i; v[1] = -i; a.update((uint64_t)i, v); b.update((uint64_t)(i + 100000), v); }
+      struct IPol { uint8_t get_num_values() const { return 2; } void operator()(Arr& x, const Arr& y) const { for (uint8_t j = 0; j < x.size(); ++j) x[j] += y[j]; } };
+      array_tuple_intersection<Arr, IPol, AD> x(DEFAULT_SEED, IPol(), AD(1)); x.update(a); x.update(b);
+      { AodObj o(x.get_result(ord == 1)); cb("inter-disjoint/n" + str(na) + (ord ? "/ordered" : "/unordered"), o); }
+      array_tuple_a_not_b<Arr, AD> d(DEFAULT_SEED, AD(1));
+      { AodObj o(d.compute(a, a, ord == 1)); cb("anotb-self/n" + str(na) + (ord ? "/ordered" : "/unordered"), o); }
     }
   };
   f.from_bytes = [](const void* p, size_t n) { return ObjP(new AodObj(CA::deserialize(p, n, DEFAULT_SEED, AD(1)))); };
